@@ -36,7 +36,7 @@ ASSUMPTIONS = [
 
 
 def examples(tier):
-    return 320 if tier == "quick" else 6000
+    return 400 if tier == "quick" else 6000
 
 
 # ---- generation -----------------------------------------------------------------------------
